@@ -176,6 +176,7 @@ type c10AppSpec struct {
 	License, Appname, Host, TOHost, RunID string
 	TOPort                                uint16
 	Queue, Span, Log, Custom              uint64
+	Strs                                  map[string]string // text fields given byte for byte: appname host display_host docker_id version
 }
 
 func c10BuildApp(s c10AppSpec) []byte {
@@ -188,6 +189,22 @@ func c10BuildApp(s c10AppSpec) []byte {
 	lab := b.CreateString("[]")
 	set := b.CreateString(`{"k":1}`)
 	host := b.CreateString(s.Host)
+	if v, ok := s.Strs["appname"]; ok {
+		name = b.CreateString(v)
+	}
+	if v, ok := s.Strs["host"]; ok {
+		host = b.CreateString(v)
+	}
+	if v, ok := s.Strs["version"]; ok {
+		ver = b.CreateString(v)
+	}
+	var dh, dock flatbuffers.UOffsetT
+	if v, ok := s.Strs["display_host"]; ok {
+		dh = b.CreateString(v)
+	}
+	if v, ok := s.Strs["docker_id"]; ok {
+		dock = b.CreateString(v)
+	}
 	var toh flatbuffers.UOffsetT
 	if s.TOHost != "" {
 		toh = b.CreateString(s.TOHost)
@@ -202,6 +219,12 @@ func c10BuildApp(s c10AppSpec) []byte {
 	protocol.AppAddSettings(b, set)
 	protocol.AppAddHost(b, host)
 	protocol.AppAddHighSecurity(b, false)
+	if dh != 0 {
+		protocol.AppAddDisplayHost(b, dh)
+	}
+	if dock != 0 {
+		protocol.AppAddDockerId(b, dock)
+	}
 	if s.TOHost != "" {
 		protocol.AppAddTraceObserverHost(b, toh)
 	}
@@ -822,6 +845,7 @@ type c10ValueIn struct {
 	Span   string `json:"span"`
 	Log    string `json:"log"`
 	Custom string `json:"custom"`
+	Strs   map[string]string `json:"strs"` // field -> hex of the bytes
 }
 
 type c10ValueOut struct {
@@ -856,6 +880,13 @@ func c10RunValue(v c10ValueIn) (o c10ValueOut) {
 	lic := c10LicH
 	spec := c10AppSpec{License: lic, Appname: "appH", Host: "hostH", TOHost: v.TOHost, TOPort: v.TOPort,
 		Queue: c10U(v.Queue), Span: c10U(v.Span), Log: c10U(v.Log), Custom: c10U(v.Custom)}
+	if len(v.Strs) > 0 {
+		spec.Strs = map[string]string{}
+		for k, hx := range v.Strs {
+			raw, _ := hex.DecodeString(hx)
+			spec.Strs[k] = string(raw)
+		}
+	}
 	d := cp.deliver(c10BuildApp(spec))
 	o.Delivery = d.Class
 	if len(d.Calls) == 1 && d.Calls[0].Info != nil {
